@@ -10,21 +10,22 @@ protoc is not available; the oracle is `Spec.Lex.protocString` / `protocNumber`,
 of protoc's tokenizer restricted to the clauses of DESIGN.md 3.4 / C14 (everything else is
 `unknown`: no claim).  Model: `Lex.lexAll` on the literal alone.
 
-The full statements are REFUTED (each witness is replayed on the real code by the `literal` engine):
-* `C14_string_full_refuted_sign`  `"\x+f"`: `readStringLiteral` feeds the raw characters to
-  `strconv.ParseInt`, which accepts a sign; protoc requires hex digits (same for `\u+041`,
-  `\U+0000041`, `\x-1`, `\u-001`).
+The full statements are REFUTED (each witness is replayed on the real code by the `literal` engine;
+both are recorded as known findings — the repository's own tests pin the current behaviour):
 * `C14_string_full_refuted_raw`   `"<FF>"`: a raw ill-formed UTF-8 byte is decoded to U+FFFD and
   re-encoded as EF BF BD (`buf.WriteRune`); protoc copies the byte.
 * `C14_number_full_refuted`       `09.5`: accepted as the float 9.5; protoc's `ConsumeNumber` takes
   the octal branch for a leading zero followed by a digit and rejects it (also `00.5`, `01e5`, `01.`).
+History: a third refutation, `"\x+f"` / `"\u+041"` / `"\U+0000041"` / `"\x-1"` accepted because the
+raw characters went to `strconv.ParseInt` (which takes a sign), was found by this machinery and
+fixed in /repo by 7c1a0665 (`ParseUint`); the model mirrors the fix and `sign_in_escape_rejected`
+records the agreement.
 Proved for all inputs (unbounded):
 * `int_value_eq_dec / _oct / _hex`: the integer decoders compute the positional value and signal
   overflow exactly above 2^64-1; `lexNumber_dec` / `protocNumber_dec`: model and specification agree
   on every decimal integer literal, including "too large for uint64 becomes a float".
-* `escape_digits_value`: inside `\x`, `\u`, `\U`, when the characters are hex digits (what protoc
-  requires) `ParseInt` yields exactly their hexadecimal value, so the divergence is confined to
-  sign characters.
+* `escape_digits_value`: inside `\x`, `\u`, `\U`, on hex digits (what protoc requires)
+  `ParseUint(·, 16, 32)` yields exactly their hexadecimal value.
 Float values are tied to `strconv.ParseFloat` by correspondence only (model `Num.roundF64`).
 -/
 import PCV.Model.Lex
@@ -73,21 +74,17 @@ instance (src : List UInt8) : Decidable (agreesStr src) := by
 instance (src : List UInt8) : Decidable (agreesNum src) := by
   unfold agreesNum; split <;> infer_instance
 
-/-- `"\x+f"`: protoc rejects (hex digits expected), the lexer accepts and decodes the byte 0x0f -/
-theorem C14_string_full_refuted_sign : ¬ C14_string_full := by
-  intro h
-  have := h [0x22, 0x5C, 0x78, 0x2B, 0x66, 0x22]
-  revert this; decide
+/-- `"\x+f"`, `"\u+041"`: rejected by protoc and (since 7c1a0665) by the lexer -/
+theorem sign_in_escape_rejected :
+    agreesStr [0x22, 0x5C, 0x78, 0x2B, 0x66, 0x22] ∧
+    agreesStr [0x22, 0x5C, 0x75, 0x2B, 0x30, 0x34, 0x31, 0x22] ∧
+    litOutcome [0x22, 0x5C, 0x78, 0x2B, 0x66, 0x22] = .rejected := by decide
 
 /-- `"<FF>"`: protoc yields the byte FF, the lexer yields EF BF BD -/
 theorem C14_string_full_refuted_raw : ¬ C14_string_full := by
   intro h
   have := h [0x22, 0xFF, 0x22]
   revert this; decide
-
-/-- `"\u+041"`: accepted as "A" -/
-example : litOutcome [0x22, 0x5C, 0x75, 0x2B, 0x30, 0x34, 0x31, 0x22] = .str [0x41] ∧
-    protocString [0x22, 0x5C, 0x75, 0x2B, 0x30, 0x34, 0x31, 0x22] = .reject := by decide
 
 /-- `09.5`: protoc rejects, the lexer accepts -/
 theorem C14_number_full_refuted : ¬ C14_number_full := by
@@ -112,10 +109,10 @@ theorem int_value_eq_hex (s : List UInt8) (hne : s ≠ []) (hd : s.all isHex = t
     parseUint s 16 64 = if hexNum s ≤ 2 ^ 64 - 1 then .ok (hexNum s) else .range :=
   parseUint_hex s 64 (Nat.le_refl _) hne hd
 
-/-- inside `\x`, `\u`, `\U`: on hex digits `ParseInt(·, 16, 32)` is the hexadecimal value -/
+/-- inside `\x`, `\u`, `\U`: on hex digits `ParseUint(·, 16, 32)` is the hexadecimal value -/
 theorem escape_digits_value (s : List UInt8) (hne : s ≠ []) (hd : s.all isHex = true) :
-    parseInt s 16 32 = if hexNum s < 2 ^ 31 then some (hexNum s : Int) else none :=
-  parseInt_hex_digits s hne hd
+    parseUint s 16 32 = if hexNum s ≤ 2 ^ 32 - 1 then .ok (hexNum s) else .range :=
+  parseUint_hex s 32 (by omega) hne hd
 
 theorem takeWhile_all {α} (p : α → Bool) (l : List α) (h : l.all p = true) : l.takeWhile p = l := by
   induction l with
@@ -178,7 +175,7 @@ example : agreesNum [0x31, 0x2E, 0x35, 0x65, 0x33] := by decide                 
 
 end PCV.Props.C14
 
-#print axioms PCV.Props.C14.C14_string_full_refuted_sign
+#print axioms PCV.Props.C14.sign_in_escape_rejected
 #print axioms PCV.Props.C14.C14_string_full_refuted_raw
 #print axioms PCV.Props.C14.C14_number_full_refuted
 #print axioms PCV.Props.C14.int_value_eq_dec
